@@ -30,6 +30,38 @@ CLASS_TEXT = {
 }
 
 
+# known-finding classes recognised by the harness (harness/c16 isGapD1, gapD2) -> key, counter, wording
+GAPS = {
+    "gap-D1": ("C16-D1-FALLBACK-BRACE", "gap_brace_single",
+               "compat.Matcher in fallback mode rejects ('unexpected open or close brace') an input ending in '}' or starting with '{' that the classic parser accepts"),
+    "gap-D2": ("C16-D2-EMPTY-NAME", "gap_empty_name",
+               "a matcher with the empty name prints without a name (=\"v\") and no parser accepts the text"),
+}
+
+
+def _judge_gaps(gaps, cnt, v, wd, probed):
+    """gaps: class -> example mismatches collected from all harness results.  A reproduced class is a
+    KNOWN-FINDING while its key is listed open, a VIOLATION otherwise; an open key whose class is
+    not reproduced although it was probed gets a note (nothing is excused then)."""
+    open_keys = {f.get("key") for f in vlib.known_findings(PID)}
+    for cl, (key, counter, wording) in GAPS.items():
+        ex = gaps.get(cl, [])
+        if ex:
+            m = ex[0]
+            text = "%s: %s; %d occurrence(s) in this run, e.g. %s: classic/printed %s -> %s" % (
+                key, wording, cnt.get(counter, len(ex)), m["what"],
+                json.dumps(m.get("want"), ensure_ascii=False)[:300], json.dumps(m.get("got"), ensure_ascii=False)[:300])
+            if key in open_keys:
+                v.known_finding(key, text)
+            else:
+                rp = os.path.join(wd, "replay_%s.json" % key)
+                with open(rp, "w") as f:
+                    f.write(json.dumps(m.get("replay")) + "\n")
+                v.violation("%s (not listed as an open finding)" % text, [rp])
+        elif probed and key in open_keys:
+            v.notes.append("KNOWN-FINDING-NOT-REPRODUCED: property=%s %s" % (PID, key))
+
+
 def _gen_sim(name, cfg, out_path, num, depth, seed, timeout=900):
     """TLC -simulate with a fixed seed; payload lines de-duplicated into out_path."""
     raw = out_path + ".raw"
@@ -51,28 +83,37 @@ def _gen_sim(name, cfg, out_path, num, depth, seed, timeout=900):
     return n
 
 
-def _replay(binp, path, out, v, wd, results):
-    rc, txt = vlib.go_run_test(binp, "TestReplay$", ["-in", path, "-out", out, "-workers", "8"], timeout=1500)
-    if rc != 0:
-        raise vlib.Inconclusive("replay harness failed on %s:\n%s" % (path, txt[-3000:]))
-    r = vlib.load_result(out)
-    results.append(r)
+def _judge(r, tag, v, wd, gaps):
+    """Every mismatch of a harness result is a violation, except the two known-finding classes,
+    which are collected in gaps and judged once by _judge_gaps."""
     lang = [m for m in r["mismatches"] if m.get("class") == "lang"]
     if lang:
         raise vlib.Inconclusive("Labels!Lang disagrees with Go regexp (the specification must be corrected): %s" % lang[0]["what"])
     shown = {}
     for m in r["mismatches"]:
         cl = m.get("class", "?")
+        if cl in GAPS:
+            gaps.setdefault(cl, []).append(m)
+            continue
         shown[cl] = shown.get(cl, 0) + 1
         if shown[cl] > 3:
             continue
-        rp = os.path.join(wd, "replay_case_%s_%d_%d.json" % (os.path.basename(path).split(".")[0], m["case"], shown[cl]))
+        rp = os.path.join(wd, "replay_case_%s_%d_%d.json" % (tag, m["case"], shown[cl]))
         with open(rp, "w") as f:
             f.write(json.dumps(m.get("replay")) + "\n")
         v.violation("%s: %s: want %s got %s" % (CLASS_TEXT.get(cl, cl), m["what"],
                                                 json.dumps(m.get("want"), ensure_ascii=False)[:500],
                                                 json.dumps(m.get("got"), ensure_ascii=False)[:500]), [rp])
     return r
+
+
+def _replay(binp, path, out, v, wd, results, gaps):
+    rc, txt = vlib.go_run_test(binp, "TestReplay$", ["-in", path, "-out", out, "-workers", "8"], timeout=1500)
+    if rc != 0:
+        raise vlib.Inconclusive("replay harness failed on %s:\n%s" % (path, txt[-3000:]))
+    r = vlib.load_result(out)
+    results.append(r)
+    return _judge(r, os.path.basename(path).split(".")[0], v, wd, gaps)
 
 
 def run(tier, v):
@@ -105,7 +146,7 @@ def run(tier, v):
         gens += [("core5", "Gen_Matchers_core.cfg"), ("values4", "Gen_Matchers_values4.cfg")]
     else:
         gens += [("full3", "Gen_Matchers_full3.cfg")]
-    results, files, total_lines = [], [], 0
+    results, files, total_lines, gaps = [], [], 0, {}
     for name, cfg in gens:
         path = os.path.join(wd, "gen_%s.jsonl" % name)
         g = vlib.gen_behaviours(PID, "gen_" + name, "Gen_Matchers", cfg, path, workers=8, timeout=1500)
@@ -123,8 +164,10 @@ def run(tier, v):
     total_lines += nsim
 
     for name, path in files:
-        r = _replay(binp, path, os.path.join(wd, "replay_%s.json" % name), v, wd, results)
-        log("  replay %s: %d cases, %d real parser calls, %d mismatches" % (name, r["cases"], r["counters"].get("parser_calls", 0), r["n_mismatches"]))
+        r = _replay(binp, path, os.path.join(wd, "replay_%s.json" % name), v, wd, results, gaps)
+        ngap = len([m for m in r["mismatches"] if m.get("class") in GAPS])
+        log("  replay %s: %d cases, %d real parser calls, %d mismatches (+%d examples of recorded finding classes)" %
+            (name, r["cases"], r["counters"].get("parser_calls", 0), r["n_mismatches"] - ngap, ngap))
 
     # the round-trip clause evaluated directly on runes outside the abstract alphabet
     out = os.path.join(wd, "runes.json")
@@ -132,15 +175,20 @@ def run(tier, v):
     if rc != 0:
         raise vlib.Inconclusive("TestRunes failed:\n" + txt[-3000:])
     rr = vlib.load_result(out)
-    for i, m in enumerate(rr["mismatches"][:5]):
-        rp = os.path.join(wd, "runes_case_%d.json" % i)
-        with open(rp, "w") as f:
-            f.write(json.dumps(m.get("replay")) + "\n")
-        v.violation("%s (runes): %s: want %s got %s" % (CLASS_TEXT.get(m.get("class"), m.get("class")), m["what"],
-                                                        json.dumps(m.get("want"), ensure_ascii=False)[:500],
-                                                        json.dumps(m.get("got"), ensure_ascii=False)[:500]), [rp])
+    _judge(rr, "runes", v, wd, gaps)
     log("  runes: %d matchers over %d-rune names/values printed and parsed back, %d mismatches" % (rr["cases"], 2, rr["n_mismatches"]))
     results.append(rr)
+
+    # the canonical inputs of the recorded findings, reproduced on every run
+    out = os.path.join(wd, "probes.json")
+    rc, txt = vlib.go_run_test(binp, "TestProbes$", ["-out", out], timeout=300)
+    if rc != 0:
+        raise vlib.Inconclusive("TestProbes failed:\n" + txt[-3000:])
+    pr = vlib.load_result(out)
+    _judge(pr, "probes", v, wd, gaps)
+    if pr["counters"].get("probe_d1", 0) < 2 or pr["counters"].get("probe_d2", 0) + pr["counters"].get("probe_d2_input_rejected", 0) < 1:
+        raise vlib.Inconclusive("the probes of the recorded findings did not run")
+    results.append(pr)
 
     cnt = {}
     for r in results:
@@ -155,8 +203,7 @@ def run(tier, v):
     short = {k: (cnt.get(k, 0), n) for k, n in need.items() if cnt.get(k, 0) < n}
     if short and not v.violations:
         raise vlib.Inconclusive("too few cases reached (got, needed): %s" % short)
-    if cnt.get("gap_brace_single", 0):
-        log("  note: %d inputs in the reported gap D1 (compat.Matcher refuses a trailing '}' that the classic parser accepts)" % cnt["gap_brace_single"])
+    _judge_gaps(gaps, cnt, v, wd, probed=True)
 
     samples = []
     for r in results:
@@ -186,7 +233,7 @@ def run(tier, v):
         "input strings longer than the bounds are not enumerated (sampled only near printed matchers)",
         "regular expression syntax: only literals, escapes and {n,m} (Matchers!RegexOK) in parser inputs; languages of 7 patterns over 4 values in the semantics (cross-checked against Go regexp with ^(?:...)$)",
         "strconv.Unquote escapes other than \\n \\\\ \\\" (octal, \\x, \\u, \\a..\\v) are reached only through the law-only representatives, not compared with the specification",
-        "matchers with an empty name are outside the round-trip clause (reported D2); compat.Matcher's refusal of a trailing '}' accepted by the classic parser is counted, not judged (reported D1)",
+        "two recorded findings (known_findings.d/C16.json) are excused only for their exact class and only while listed open: C16-D1-FALLBACK-BRACE (compat.Matcher rejects a leading '{' / trailing '}' input that the classic parser accepts) and C16-D2-EMPTY-NAME (a matcher with the empty name does not survive print + parse)",
         "the compat mode is package state: modes are exercised one after the other, concurrency of InitFromFlags is not explored",
     ]
     return "model_checking", coverage, assumptions
@@ -205,4 +252,6 @@ def replay(path, v):
             if isinstance(d, str):      # an artefact holds the case as a JSON string
                 d = json.loads(d)
             o.write(json.dumps(d) + "\n")
-    _replay(binp, inp, os.path.join(wd, "replay_out.json"), v, wd, [])
+    gaps, results = {}, []
+    r = _replay(binp, inp, os.path.join(wd, "replay_out.json"), v, wd, results, gaps)
+    _judge_gaps(gaps, r["counters"], v, wd, probed=False)
